@@ -16,8 +16,12 @@ import (
 	"bytes"
 	"fmt"
 	"go/ast"
+	"go/parser"
 	"go/printer"
 	"go/token"
+	"os"
+	"path/filepath"
+	"sort"
 	"strconv"
 	"strings"
 )
@@ -102,6 +106,97 @@ func c05bytesLit(s string) string {
 		parts = append(parts, strconv.Itoa(int(s[i])))
 	}
 	return "[" + strings.Join(parts, ", ") + "]"
+}
+
+
+// c05Sites finds every composite literal of quorumlog.Record (and non-empty
+// literals of quorumlog.EntryIdentity outside pkg/quorumlog) in the non-test Go
+// files of the repository: each is a place where message fields enter the digest.
+func c05Sites(repo string) (sites []string, entryLits int, err error) {
+	var files []string
+	werr := filepath.Walk(repo, func(path string, info os.FileInfo, e error) error {
+		if e != nil {
+			return nil
+		}
+		if info.IsDir() {
+			n := info.Name()
+			if n == ".git" || n == "node_modules" || n == "vendor" || n == "web" || n == "docs" {
+				return filepath.SkipDir
+			}
+			return nil
+		}
+		if !strings.HasSuffix(path, ".go") || strings.HasSuffix(path, "_test.go") {
+			return nil
+		}
+		b, e2 := os.ReadFile(path)
+		if e2 != nil {
+			return nil
+		}
+		src := string(b)
+		inPkg := filepath.Dir(path) == filepath.Join(repo, "pkg", "quorumlog")
+		if strings.Contains(src, "quorumlog.Record{") || strings.Contains(src, "quorumlog.EntryIdentity{") ||
+			(inPkg && (strings.Contains(src, "Record{") || strings.Contains(src, "EntryIdentity{"))) {
+			files = append(files, path)
+		}
+		return nil
+	})
+	if werr != nil {
+		return nil, 0, werr
+	}
+	sort.Strings(files)
+	for _, path := range files {
+		fset := token.NewFileSet()
+		f, perr := parser.ParseFile(fset, path, nil, 0)
+		if perr != nil {
+			return nil, 0, perr
+		}
+		rel, _ := filepath.Rel(repo, path)
+		inPkg := filepath.Dir(path) == filepath.Join(repo, "pkg", "quorumlog")
+		recName, entName := "quorumlog.Record", "quorumlog.EntryIdentity"
+		if inPkg {
+			recName, entName = "Record", "EntryIdentity"
+		}
+		for _, d := range f.Decls {
+			fd, ok := d.(*ast.FuncDecl)
+			if !ok || fd.Body == nil {
+				continue
+			}
+			var ierr error
+			ast.Inspect(fd.Body, func(n ast.Node) bool {
+				cl, ok := n.(*ast.CompositeLit)
+				if !ok || cl.Type == nil {
+					return true
+				}
+				switch c05src(fset, cl.Type) {
+				case entName:
+					if len(cl.Elts) > 0 && !inPkg {
+						entryLits++
+					}
+				case recName:
+					var kv []string
+					for _, e := range cl.Elts {
+						x, ok := e.(*ast.KeyValueExpr)
+						if !ok {
+							ierr = fmt.Errorf("%s %s: positional quorumlog.Record literal", rel, fd.Name.Name)
+							return false
+						}
+						k := c05src(fset, x.Key)
+						if _, ok := c05RecFld[k]; !ok {
+							ierr = fmt.Errorf("%s %s: unknown Record field %s", rel, fd.Name.Name, k)
+							return false
+						}
+						kv = append(kv, fmt.Sprintf("(.%s, %s)", c05RecFld[k], leanStr(c05src(fset, x.Value))))
+					}
+					sites = append(sites, fmt.Sprintf("(%s, %s, [%s])", leanStr(rel), leanStr(fd.Name.Name), strings.Join(kv, ", ")))
+				}
+				return true
+			})
+			if ierr != nil {
+				return nil, 0, ierr
+			}
+		}
+	}
+	return sites, entryLits, nil
 }
 
 func extractC05(repo string) (string, error) {
@@ -495,6 +590,12 @@ func extractC05(repo string) (string, error) {
 	fmt.Fprintf(&b, "/-- number of call sites of digestProposalEntry in proposal.go (Derive + Verify) -/\ndef digestCallSites : Nat := %d\n", calls)
 	fmt.Fprintf(&b, "/-- both SealProposalManifest functions derive over records[index] and take the last entry digest -/\ndef sealUsesDerive : Bool := %v\n\n", sealOK && qsealOK)
 	fmt.Fprintf(&b, "/-- pkg/channel/proposal.go: quorumlog.Record field ← channel.Record field of the wrapper -/\ndef channelRecordMap : List (Fld × String) := [\n  %s\n]\n\n", strings.Join(cmap, ", "))
+	sites, entryLits, err := c05Sites(repo)
+	if err != nil {
+		return "", err
+	}
+	fmt.Fprintf(&b, "/-- EVERY composite literal of quorumlog.Record in the repository's non-test Go files:\n    (file, enclosing function, field ← source expression) -/\ndef recordSites : List (String × String × List (Fld × String)) := [\n  %s\n]\n\n", strings.Join(sites, ",\n  "))
+	fmt.Fprintf(&b, "/-- non-empty composite literals of quorumlog.EntryIdentity outside pkg/quorumlog (identities are only built by Derive or decoded field by field) -/\ndef entryLiteralsOutside : Nat := %d\n\n", entryLits)
 	b.WriteString("end WK.Gen.C05\n")
 	return b.String(), nil
 }
